@@ -12,6 +12,7 @@ Parts (every case is one deterministic run of a real tenpy engine on a 4..8 site
              state independent of the split (untruncated), reported truncation error = sum of the errors of the
              intercepted truncations (truncated), TEBD per-bond errors likewise.
 """
+import copy
 import itertools
 import logging
 import traceback
@@ -33,36 +34,44 @@ EXACT = 1e-11  # below this error only smallness is required
 
 # name -> (module, class, options, order p, flags); flags: nn = needs H_bond, unitary = built from unitary gates /
 # tangent-space projection (norm exactly conserved in real time), tdvp = energy exactly conserved,
-# src = where the engine takes the error of one truncation step from, td = time dependent variant
+# src = where the engine takes the error of one truncation step from, td = time dependent variant (value: its static
+# counterpart), slow = shorter histories, expand = prepare_evolve enlarges the bonds (Krylov / random expansion)
 ENGINES = {}
 
 
 def _eng(name, module, cls, opt, p, **flags):
-    ENGINES[name] = dict(module=module, cls=cls, opt=opt, p=p, nn=False, unitary=False, tdvp=False, td=False, src='truncate', prod_ok=True)
+    ENGINES[name] = dict(module=module, cls=cls, opt=opt, p=p, nn=False, unitary=False, tdvp=False, td=False, src='truncate', prod_ok=True, slow=False, expand=False)
     ENGINES[name].update(flags)
 
 
 QR_OPT = dict(cbe_expand=8.0, cbe_min_block_increase=8)  # expansion large enough to represent every state of <= 8 sites
 for _o, _n in ((1, '1'), (2, '2'), (4, '4'), ('4_opt', '4opt')):
     _eng('tebd' + _n, 'tebd', 'TEBDEngine', dict(order=_o), 4 if _o == '4_opt' else _o, nn=True, unitary=True)
-    _eng('qrtebd' + _n, 'tebd', 'QRBasedTEBDEngine', dict(order=_o, **QR_OPT), 4 if _o == '4_opt' else _o, nn=True, unitary=True, src='qr')
+    if _o in (2, 4):
+        _eng('qrtebd' + _n, 'tebd', 'QRBasedTEBDEngine', dict(order=_o, **QR_OPT), _o, nn=True, unitary=True, src='qr', slow=_o == 4)
 for _o in (1, 2):
     for _a in ('I', 'II'):
         for _c in ('SVD', 'variational', 'zip_up'):
             _eng('mpo%d%s%s' % (_o, _a, _c), 'mpo_evolution', 'ExpMPOEvolution', dict(order=_o, approximation=_a, compression_method=_c), _o,
-                 src='apply' if _c == 'variational' else 'truncate')
+                 src='apply' if _c == 'variational' else 'truncate', slow=_c == 'variational')
 # single-site TDVP cannot leave the manifold of its start state: order claim only from states of maximal bond dimension
-_eng('tdvp1', 'tdvp', 'SingleSiteTDVPEngine', {}, 2, unitary=True, tdvp=True, prod_ok=False)
-_eng('tdvp2', 'tdvp', 'TwoSiteTDVPEngine', {}, 2, unitary=True, tdvp=True, prod_ok='nn')
-_eng('tdvp1xR', 'tdvp', 'SingleSiteTDVPEngine', dict(Krylov_params=dict(expansion_dim=2, mpo=None)), 2, unitary=True, tdvp=True, prod_ok=False)
-_eng('tdvp1xH', 'tdvp', 'SingleSiteTDVPEngine', dict(Krylov_params=dict(expansion_dim=1)), 2, unitary=True, tdvp=True, prod_ok=False)
-_eng('td_tebd2', 'tebd', 'TimeDependentTEBD', dict(order=2), 2, nn=True, unitary=True, td='tebd2')
-_eng('td_tebd4', 'tebd', 'TimeDependentTEBD', dict(order=4), 4, nn=True, unitary=True, td='tebd4')
-_eng('td_mpo2IISVD', 'mpo_evolution', 'TimeDependentExpMPOEvolution', dict(order=2, approximation='II', compression_method='SVD'), 2, td='mpo2IISVD')
-_eng('td_mpo1Izip_up', 'mpo_evolution', 'TimeDependentExpMPOEvolution', dict(order=1, approximation='I', compression_method='zip_up'), 1, td='mpo1Izip_up')
-_eng('td_tdvp1', 'tdvp', 'TimeDependentSingleSiteTDVP', {}, 2, unitary=True, tdvp=True, prod_ok=False, td='tdvp1')
-_eng('td_tdvp2', 'tdvp', 'TimeDependentTwoSiteTDVP', {}, 2, unitary=True, tdvp=True, prod_ok='nn', td='tdvp2')
+_TDVP = dict(unitary=True, tdvp=True, slow=True)
+_eng('tdvp1', 'tdvp', 'SingleSiteTDVPEngine', {}, 2, prod_ok=False, **_TDVP)
+_eng('tdvp2', 'tdvp', 'TwoSiteTDVPEngine', {}, 2, prod_ok='nn', **_TDVP)
+_eng('tdvp1xR', 'tdvp', 'SingleSiteTDVPEngine', dict(Krylov_params=dict(expansion_dim=2, mpo=None)), 2, prod_ok=False, expand=True, **_TDVP)
+_eng('tdvp1xH', 'tdvp', 'SingleSiteTDVPEngine', dict(Krylov_params=dict(expansion_dim=1, apply_mpo_options=dict(compression_method='SVD', trunc_params=dict(NO_TRUNC)))),
+     2, prod_ok=False, expand=True, **_TDVP)
+_eng('td_tebd2', 'tebd', 'TimeDependentTEBD', dict(order=2), 2, nn=True, unitary=True, td='tebd2', slow=True)
+_eng('td_tebd4', 'tebd', 'TimeDependentTEBD', dict(order=4), 4, nn=True, unitary=True, td='tebd4', slow=True)
+_eng('td_mpo2IISVD', 'mpo_evolution', 'TimeDependentExpMPOEvolution', dict(order=2, approximation='II', compression_method='SVD'), 2, td='mpo2IISVD', slow=True)
+_eng('td_mpo1Izip_up', 'mpo_evolution', 'TimeDependentExpMPOEvolution', dict(order=1, approximation='I', compression_method='zip_up'), 1, td='mpo1Izip_up', slow=True)
+_eng('td_tdvp1', 'tdvp', 'TimeDependentSingleSiteTDVP', {}, 2, prod_ok=False, td='tdvp1', **_TDVP)
+_eng('td_tdvp2', 'tdvp', 'TimeDependentTwoSiteTDVP', {}, 2, prod_ok='nn', td='tdvp2', **_TDVP)
 RAMP = 0.8
+DT_UNIT = {False: 1.0, True: -1j, 'c': 1.0 - 0.5j}  # `imag` flag of a case -> direction of the time step in the complex plane
+DT_NAME = {False: 'real', True: 'imag', 'c': 'complex'}
+# the bookkeeping code of these is shared with an engine that is in the quick tier (same class, other order / MPO approximation)
+HIST_THOROUGH_ONLY = {'qrtebd4', 'td_tebd4', 'tdvp1xR', 'tdvp1xH', 'mpo1IISVD', 'mpo1IIvariational', 'mpo1IIzip_up', 'mpo2ISVD', 'mpo2Ivariational', 'mpo2Izip_up'}
 
 
 def _kinds(name):
@@ -95,7 +104,6 @@ def histories(nmax, methods):
 
 
 def units(tier, seed, label):
-    from checks import c14_models as M
     quick = tier == 'quick'
     us = [('schedule', seed)]
     names = sorted(ENGINES)
@@ -117,14 +125,20 @@ def units(tier, seed, label):
                     us.append(('ladder', name, kind, L, imag, tier, seed))
     for ie, name in enumerate(names):
         kinds = _kinds(name)
-        for ik, kind in enumerate(kinds):
-            if quick and (ie + ik) % len(kinds) != 0:
-                continue
-            for imag in (False, True):
-                if quick and imag and ie % 3 != 0:
-                    continue
-                for trunc in (False, True):
-                    us.append(('hist', name, kind, imag, trunc, tier, seed))
+        if quick and name in HIST_THOROUGH_ONLY:
+            continue
+        # histories: one model per engine (rotating), thorough two for the fast engines; imaginary dt for every third engine in
+        # quick, imaginary and general complex dt in thorough (a time dependent H(t) is only defined for real t)
+        for ik in range(1 if quick or ENGINES[name]['slow'] else 2):
+            if ENGINES[name]['td']:
+                dts = (False,)
+            elif quick:
+                dts = (False, True) if ie % 3 == 0 else (False,)
+            else:
+                dts = (False, True, 'c') if ENGINES[name]['slow'] else ((False, True), (False, 'c'))[ik]
+            for imag in dts:
+                for trunc in (False,) if 'SingleSite' in ENGINES[name]['cls'] else (False, True):  # (single-site TDVP never truncates)
+                    us.append(('hist', name, kinds[(ie + ik) % len(kinds)], imag, trunc, tier, seed))
     cost = lambda u: (u[0] != 'hist', u[0] == 'schedule', -u[3] if u[0] == 'ladder' else 0)
     return sorted(us, key=cost)
 
@@ -267,9 +281,9 @@ def run_history(name, kind, L, which, seed, dt, history, trunc=False, ramp=None,
     v0 = None
     if psi is None:
         psi, v0, _ = M.make_state(kind, L, which, seed)
-    opts = dict(spec['opt'], dt=dt, N_steps=1, start_time=start, trunc_params=dict(TRUNC if trunc else NO_TRUNC), max_trunc_err=10.0,
+    q0 = psi.get_total_charge().tolist()
+    opts = dict(copy.deepcopy(spec['opt']), dt=dt, N_steps=1, start_time=start, trunc_params=dict(TRUNC if trunc else NO_TRUNC), max_trunc_err=10.0,
                 start_trunc_err=TruncationError(START_EPS, 1.0 - 2.0 * START_EPS))
-    opts = {k: (dict(v) if isinstance(v, dict) else v) for k, v in opts.items()}
     if preserve_norm is not None:
         opts['preserve_norm'] = preserve_norm
     returned = []
@@ -295,13 +309,13 @@ def run_history(name, kind, L, which, seed, dt, history, trunc=False, ramp=None,
     if spec['module'] == 'tebd':
         bonds = [float(e.eps) for e in eng.trunc_err_bonds]
     return dict(v=M.to_dense(psi), v0=v0, time=eng.evolved_time, eps=float(eng.trunc_err.eps), rec=rec, returned=returned, bonds=bonds,
-                snapshots=snapshots, psi=psi, qtotal=psi.get_total_charge().tolist())
+                snapshots=snapshots, q0=q0, qtotal=psi.get_total_charge().tolist())
 
 
-def _exc_violation(name, part, e, case):
+def _exc_violation(name, e, case):
     tb = traceback.extract_tb(e.__traceback__)
     where = next((f for f in reversed(tb) if '/tenpy/' in f.filename), tb[-1])
-    return dict(key='exception:%s:%s:%s:%s' % (ENGINES[name]['cls'], part, type(e).__name__, where.name),
+    return dict(key='exception:%s:%s:%s' % (name, type(e).__name__, where.name),
                 what='%s %s: %s: %s\n%s' % (name, case, type(e).__name__, e, ''.join(traceback.format_exception(type(e), e, e.__traceback__))[-1200:]), case=case)
 
 
@@ -323,10 +337,10 @@ def check_ladder(name, kind, L, which, imag, seed, require_order=True):
     from checks import c14_models as M
     spec = ENGINES[name]
     case = dict(part='ladder', engine=name, kind=kind, L=L, which=list(which), imag=imag, seed=seed, require_order=require_order)
-    tag = '%s:%s' % (name, 'imag' if imag else 'real')
+    tag = '%s:%s' % (name, DT_NAME[imag])
     viol = []
     ramp = RAMP if spec['td'] else None
-    unit = -1j if imag else 1.0
+    unit = DT_UNIT[imag]
     errs, runs = [], 0
     H0 = M.dense_H(kind, L, START, ramp or 0.0)
     hnorm = np.linalg.norm(H0, 2)
@@ -345,10 +359,10 @@ def check_ladder(name, kind, L, which, imag, seed, require_order=True):
             ref = scipy.linalg.expm(-1j * dt * n * H0) @ v0
         errs.append(float(np.linalg.norm(v - ref)))
         mask = M.sector_mask(M.make_site(kind), L, M.PRODUCT_STATES[kind](L)[which[1]])
-        if np.abs(v[~mask]).max() != 0.0 or r['qtotal'] != M.make_state(kind, L, which, seed)[0].get_total_charge().tolist():
+        if np.abs(v[~mask]).max() != 0.0 or r['qtotal'] != r['q0']:
             viol.append(dict(key='charge:%s:left-sector' % tag, what='%s: evolved state has weight %.3g outside the charge sector of the start state' % (case, np.abs(v[~mask]).max()), case=case))
         if r['time'] != START + n * dt:
-            viol.append(dict(key='time:%s:run' % tag, what='%s: evolved_time=%r after %d steps of %r from %r' % (case, r['time'], n, dt, START), case=case))
+            viol.append(dict(key='time:%s:%s' % (spec['cls'], DT_NAME[imag]), what='%s: evolved_time=%r after %d steps of %r from %r' % (case, r['time'], n, dt, START), case=case))
         if not imag and spec['unitary'] and abs(np.linalg.norm(v) - 1.0) > 1e-10:
             viol.append(dict(key='norm:%s:not-conserved' % tag, what='%s: norm %.15g after real-time evolution with unitary steps' % (case, np.linalg.norm(v)), case=case))
         if not imag and spec['tdvp'] and not spec['td']:
@@ -385,12 +399,12 @@ def run_ladder(unit):
         try:
             vs, nontrivial, runs, outcome = check_ladder(name, kind, L, which, imag, seed, req)
         except Exception as e:  # noqa: BLE001
-            vs, nontrivial, runs, outcome = [_exc_violation(name, 'ladder', e, case)], False, 1, 'exception'
+            vs, nontrivial, runs, outcome = [_exc_violation(name, e, case)], False, 1, 'exception'
         ev += runs
         viol += vs
         outcomes.add(outcome)
         if nontrivial or not req:
-            keys.append('ladder:%s:%s:%d:%s%d:%s' % (name, kind, L, which[0], which[1], 'imag' if imag else 'real'))
+            keys.append('ladder:%s:%s:%d:%s%d:%s' % (name, kind, L, which[0], which[1], DT_NAME[imag]))
     return dict(evaluations=ev, keys=keys, outcomes=sorted(outcomes), violations=viol[:20], samples=[case])
 
 
@@ -409,19 +423,19 @@ def check_history(name, kind, imag, trunc, history, seed, ref_cache=None, model=
     from checks import c14_models as M
     spec = ENGINES[name]
     L, which = 4, ('rand', 0)
-    dt = DT_HIST * (-1j if imag else 1.0)
+    dt = DT_HIST * DT_UNIT[imag]
     ramp = RAMP if spec['td'] else None
     case = dict(part='hist', engine=name, kind=kind, imag=imag, trunc=trunc, history=[list(h) for h in history], seed=seed)
-    tag = '%s:%s' % (spec['cls'], 'imag' if imag else 'real')
-    methods = '+'.join(sorted(set(h[0] for h in history)))
+    tag = '%s:%s' % (spec['cls'], DT_NAME[imag])
+    methods = set(h[0] for h in history)
     viol = []
     r = run_history(name, kind, L, which, seed, dt, history, trunc=trunc, ramp=ramp, model=model)
     runs = 1
     expected_time = START
     for _m, n, f in history:
         expected_time = expected_time + n * (dt * f)
-    if r['time'] != expected_time or type(r['time']) is not type(expected_time):
-        viol.append(dict(key='time:%s:%s' % (tag, methods), what='%s: evolved_time=%r, expected start_time + sum(N_steps*dt) = %r' % (case, r['time'], expected_time), case=case))
+    if r['time'] != expected_time:
+        viol.append(dict(key='time:%s' % tag, what='%s: evolved_time=%r, expected start_time + sum(N_steps*dt) = %r' % (case, r['time'], expected_time), case=case))
     N = sum(h[1] for h in history)
     changes_dt = any(h[2] != 1.0 for h in history)
     if not np.all(np.isfinite(r['v'])):
@@ -434,34 +448,32 @@ def check_history(name, kind, imag, trunc, history, seed, ref_cache=None, model=
             runs += 1
             why = 'after a change of dt the engine differs from a fresh engine'
         else:
-            ck = (N,)
-            if ref_cache is None or ck not in ref_cache:
-                ref = run_history(name, kind, L, which, seed, dt, [('run', N, 1.0)], ramp=ramp)['v'] if N else M.make_state(kind, L, which, seed)[1]
+            ref_cache = {} if ref_cache is None else ref_cache
+            if N not in ref_cache:
+                ref_cache[N] = run_history(name, kind, L, which, seed, dt, [('run', N, 1.0)], ramp=ramp)['v'] if N else M.make_state(kind, L, which, seed)[1]
                 runs += 1
-                if ref_cache is not None:
-                    ref_cache[ck] = ref
-            ref = ref_cache[ck] if ref_cache is not None else ref
+            ref = ref_cache[N]
             why = 'final state depends on the split into calls (reference: one run() with N_steps=%d)' % N
         d = np.linalg.norm(r['v'] - ref)
         if d > 1e-10 * max(1.0, np.linalg.norm(ref)):
             viol.append(dict(key='split:%s:%s' % (tag, 'dt-change' if changes_dt else 'state-differs'), what='%s: %s, distance %.3g' % (case, why, d), case=case))
-        if not imag and spec['unitary'] and abs(np.linalg.norm(r['v']) - 1.0) > 1e-10:
+        if imag is False and spec['unitary'] and abs(np.linalg.norm(r['v']) - 1.0) > 1e-10:
             viol.append(dict(key='norm:%s:not-conserved' % tag, what='%s: norm %.15g' % (case, np.linalg.norm(r['v'])), case=case))
     rec, src = r['rec'], spec['src']
     total = rec.total(src)
     tol = lambda x: 1e-12 * max(abs(x), 1e-3)
     for got, want in r['returned']:
         if not abs(got - want) <= tol(want):
-            viol.append(dict(key='trunc_err:%s:evolve-return:%s' % (tag, _classify(got, 0.0, want)), what='%s: evolve() returned eps=%r, the truncations of this call sum to %r' % (case, got, want), case=case))
+            viol.append(dict(key='trunc_err:%s:evolve-return:%s' % (spec['cls'], _classify(got, 0.0, want)), what='%s: evolve() returned eps=%r, the truncations of this call sum to %r' % (case, got, want), case=case))
     if 'evolve' not in methods:
         want = START_EPS + total
         if not abs(r['eps'] - want) <= tol(want):
-            viol.append(dict(key='trunc_err:%s:%s' % (tag, _classify(r['eps'], START_EPS, total)),
+            viol.append(dict(key='trunc_err:%s:%s' % (spec['cls'], _classify(r['eps'], START_EPS, total)),
                              what='%s: eng.trunc_err.eps=%r, start_trunc_err.eps + sum of the %d recorded truncation errors = %r' % (case, r['eps'], len(rec.events), want), case=case))
     if r['bonds'] is not None:
         want = [float(sum(e[1] for e in rec.events if e[0] == src and e[2] == b)) for b in range(1, L)]
         if len(r['bonds']) != L - 1 or any(not abs(g - w) <= tol(w) for g, w in zip(r['bonds'], want)):
-            viol.append(dict(key='trunc_err_bonds:%s' % tag, what='%s: trunc_err_bonds=%r, recorded per bond %r' % (case, r['bonds'], want), case=case))
+            viol.append(dict(key='trunc_err_bonds:%s' % spec['cls'], what='%s: trunc_err_bonds=%r, recorded per bond %r' % (case, r['bonds'], want), case=case))
     return viol, (total > 0 if trunc else N > 0), runs
 
 
@@ -469,14 +481,17 @@ def run_hist(unit):
     from checks import c14_models as M
     _, name, kind, imag, trunc, tier, seed = unit
     methods = ('run', 'run_evolution') if ENGINES[name]['td'] else ('run', 'run_evolution', 'evolve')
-    hs = histories(3 if tier == 'quick' else 4, methods)
+    hs = histories((3 if tier == 'quick' else 4) - ENGINES[name]['slow'], methods)
+    if ENGINES[name]['expand']:
+        # (a second expansion of bonds that were just expanded is an operation of MPS.subspace_expansion, not of C14)
+        hs = [h for h in hs if all(n > 0 for _m, n, _f in h)]
     model = None if ENGINES[name]['td'] else M.make_model(kind, 4)  # (time dependent engines re-create / modify their model)
     viol, ev, nontrivial, cache, seen = [], 0, 0, {}, set()
     for h in hs:
         try:
             vs, nt, runs = check_history(name, kind, imag, trunc, h, seed, cache, model)
         except Exception as e:  # noqa: BLE001
-            vs, nt, runs = [_exc_violation(name, 'hist', e, dict(part='hist', engine=name, kind=kind, imag=imag, trunc=trunc, history=[list(x) for x in h], seed=seed))], False, 1
+            vs, nt, runs = [_exc_violation(name, e, dict(part='hist', engine=name, kind=kind, imag=imag, trunc=trunc, history=[list(x) for x in h], seed=seed))], False, 1
         ev += runs
         nontrivial += bool(nt)
         for v in vs:  # one example per key and unit
@@ -503,14 +518,9 @@ def replay(case):
     _quiet()
     part = case['part']
     if part == 'schedule':
-        order, N = case['order'], case['N']
-        try:
-            msg = check_schedule(order, N) if order in SYMBOLS else None
-        except Exception as e:  # noqa: BLE001
-            msg = 'exception %s: %s' % (type(e).__name__, e)
-        if order not in SYMBOLS:
-            return run_schedule(('schedule', 0))
-        return dict(evaluations=1, violations=[dict(key='replay', what=msg, case=case)] if msg else [])
+        res = run_schedule(('schedule', 0))
+        res['violations'] = [v for v in res['violations'] if v['case'] == case]
+        return res
     name = case['engine']
     try:
         if part == 'ladder':
@@ -518,5 +528,5 @@ def replay(case):
         else:
             vs, _, runs = check_history(name, case['kind'], case['imag'], case['trunc'], [tuple(h) for h in case['history']], case['seed'])
     except Exception as e:  # noqa: BLE001
-        vs, runs = [_exc_violation(name, part, e, case)], 1
+        vs, runs = [_exc_violation(name, e, case)], 1
     return dict(evaluations=runs, violations=vs)
